@@ -202,6 +202,9 @@ func genC03(t *rapid.T) *Scenario {
 		sc.Invs = []Invocation{inv}
 	case r < 19 && chance(t, 30, "depthfam"):
 		sc = depthScenario(t)
+		if chance(t, 40, "collisionfam") {
+			sc = collisionScenario(t)
+		}
 	default:
 		sc = GenTreeScenario(t, TreeCfg{MaxFork: 12, MaxInvs: 2, Budget: 6, Journal: true, Transient: true, EmptyData: 30, ValuePct: 40, LowGasPct: 20, AllKinds: true})
 		bindAspects(t, sc, []AspectSpec{{Burn: 0, End: "ok"}, {Burn: 0, End: "trap"}, {Burn: 1000000000, End: "ok"}, {Burn: 10, End: "revert"}}, 50)
